@@ -1,4 +1,5 @@
 /- C07 line-protocol driver (core-only). -/
+import Std.Data.HashMap
 import BV.Common.Hex
 import BV.Common.Sha256
 import BV.C07.Spec
@@ -64,10 +65,13 @@ def tx? (s : String) : Option Tx :=
 def spent? (s : String) : Option (List TxOut) := listOf? "," txOut? s
 
 /-- the fetcher the harness builds: keyed by outpoint, first occurrence wins -/
-def mkFetch (tx : Tx) (spent : List TxOut) : OutPoint → TxOut :=
-  fun o => match (tx.ins.zip spent).find? (fun p => p.1.prev == o) with
-    | some p => p.2
-    | none => ⟨0, []⟩
+def mkFetchMap (tx : Tx) (spent : List TxOut) : Std.HashMap OutPoint TxOut :=
+  (tx.ins.zip spent).foldl (fun m p => if m.contains p.1.prev then m else m.insert p.1.prev p.2) {}
+
+/-- (built once per case: a hash map instead of a linear search, usable with 65537 inputs) -/
+@[noinline] def fetchOf (m : Std.HashMap OutPoint TxOut) (o : OutPoint) : TxOut := m.getD o ⟨0, []⟩
+
+/-- usage: `let m := mkFetchMap tx spent; … fetchOf m` (the map must be let-bound as a value) -/
 
 def showOut : Model.Out → String
   | .digest d => listToHex d
@@ -84,7 +88,8 @@ def handleLegacy (api : Bool) (tx : Tx) (idx : Nat) (ht : UInt32) (script : Byte
 
 def handleWit (api : Bool) (tx : Tx) (spent : List TxOut) (idx : Nat) (ht : UInt32) (sub : Bytes)
     (amt : UInt64) : String :=
-  let fetch := mkFetch tx spent
+  let m := mkFetchMap tx spent
+  let fetch := fetchOf m
   let sh := Model.newTxSigHashes sha tx fetch
   -- with midstates that were computed for a v0 input the digest is the BIP143 one (theorem
   -- cache_eq_nocache); otherwise the model of the code
@@ -97,7 +102,8 @@ def handleWit (api : Bool) (tx : Tx) (spent : List TxOut) (idx : Nat) (ht : UInt
 
 def handleTap (tx : Tx) (spent : List TxOut) (idx : Nat) (ht : UInt32) (annex : Option Bytes)
     (ext : Option Spec.TapExt) : String :=
-  let fetch := mkFetch tx spent
+  let m := mkFetchMap tx spent
+  let fetch := fetchOf m
   if (Model.scanInputs fetch tx.ins false false).2 then
     match Spec.bip341Digest sha ht tx (tx.ins.map (fun i => fetch i.prev)) idx annex ext with
     | .ok d => listToHex d
@@ -127,7 +133,8 @@ or nil (`n`) midstate and any caller option list -/
 def handleTapOpt (tx : Tx) (spent : List TxOut) (idx : Nat) (ht : UInt32) (cache : String)
     (annex : Option Bytes) (ext : Option Spec.TapExt) : String :=
   if cache == "n" then
-    showOut (Model.calcTaprootSignatureHashRawNil sha ht tx idx (mkFetch tx spent)
+    let m := mkFetchMap tx spent
+    showOut (Model.calcTaprootSignatureHashRawNil sha ht tx idx (fetchOf m)
       (Model.mkOpts sha annex (ext.map (fun e => (e.leafHash, e.codeSepPos)))))
   else handleTap tx spent idx ht annex ext
 
@@ -183,7 +190,8 @@ def hashCacheRun (txs : List (Tx × List TxOut)) (ops : List String) : Option St
       let i ← i.toNat?
       let (tx, sp) ← txs[i]?
       let txid := sha (sha (txSerNoWitness tx))
-      if k == "a" then c := c.add txid (Model.newTxSigHashes sha tx (mkFetch tx sp))
+      let m := mkFetchMap tx sp
+      if k == "a" then c := c.add txid (Model.newTxSigHashes sha tx (fetchOf m))
       else if k == "g" then out := out ++ [match c.get txid with | some s => showMid s | none => "none"]
       else if k == "c" then out := out ++ [if (c.get txid).isSome then "1" else "0"]
       else if k == "p" then c := c.purge txid
@@ -199,9 +207,11 @@ def splitBar (ts : List String) : List (List String) :=
 
 def midReuse (tx1 : Tx) (sp1 : List TxOut) (tx2 : Tx) (sp2 : List TxOut) (idx : Nat) (ht : UInt32) :
     String :=
-  let f1 := mkFetch tx1 sp1
+  let m1 := mkFetchMap tx1 sp1
+  let m2 := mkFetchMap tx2 sp2
+  let f1 := fetchOf m1
   let sh1 := Model.newTxSigHashes sha tx1 f1
-  let sh2 := Model.newTxSigHashes sha tx2 (mkFetch tx2 sp2)
+  let sh2 := Model.newTxSigHashes sha tx2 (fetchOf m2)
   showMid sh1 ++ "," ++ showOut (Model.calcWitnessSignatureHashRaw sha [0xac] sh1 ht tx1 idx 12345) ++ "," ++
     showOut (Model.calcTaprootSignatureHashRaw sha sh1 ht tx1 idx f1 {}) ++ "," ++ showMid sh2
 
@@ -309,7 +319,8 @@ partial def handle : List String → String
     match tx? tx, spent? sp, idx.toNat?, u32? ht, annex? annex, ext? ext with
     | some tx, some sp, some idx, some ht, some annex, some ext =>
       if sp.length ≠ tx.ins.length then "bad-op" else
-      showOut (Model.calcTaprootSignatureHashRawNil sha ht tx idx (mkFetch tx sp)
+      let m := mkFetchMap tx sp
+      showOut (Model.calcTaprootSignatureHashRawNil sha ht tx idx (fetchOf m)
         (Model.mkOpts sha annex (ext.map (fun e => (e.leafHash, e.codeSepPos)))))
     | _, _, _, _, _, _ => "bad-op"
   | [op, tx, sp, idx, ht, sub, amt] =>
